@@ -43,6 +43,9 @@ pub mod verif_hooks {
     pub fn get_var_name(id: usize) -> String {
         crate::proc_gen::verif_get_var_name(id)
     }
+    pub fn next_var_name(id_inc: usize) -> (String, usize) {
+        crate::proc_gen::verif_next_var_name(id_inc)
+    }
     pub fn entities_decode(s: &str) -> Option<String> {
         crate::entities::decode(s).map(|x| x.into_owned())
     }
